@@ -17,6 +17,9 @@ pub struct StepPt {
     pub len: f64,
     #[serde(default)]
     pub dynamic: bool,
+    /// start time (default 0.2)
+    #[serde(default)]
+    pub t0: Option<f64>,
 }
 pub fn rhs_of(name: &str) -> (Rc<dyn Fn(f64, &[f64]) -> Vec<f64>>, Vec<f64>) {
     if let Some(d) = name.strip_prefix("generic") {
@@ -32,7 +35,8 @@ pub struct Steps;
 const RHS: [&str; 5] = ["generic1", "generic2", "generic3", "rot2:lin-2+logistic", "rot3:osc2.5+gauss"];
 pub fn run_and_judge(o: &mut Outcome, p: &StepPt, budget: u64) -> Option<refstep::Judged> {
     let (f, y0) = rhs_of(&p.rhs);
-    let cfg = Cfg { tol: p.tol, dtmin: 1e-9, dtmax: p.dtmax, t0: 0.2, t1: 0.2 + p.len };
+    let t0 = p.t0.unwrap_or(0.2);
+    let cfg = Cfg { tol: p.tol, dtmin: 1e-9, dtmax: p.dtmax, t0, t1: t0 + p.len };
     let f2 = f.clone();
     let log = Rc::new(std::cell::RefCell::new(refstep::CallLog::default()));
     let l2 = log.clone();
@@ -100,7 +104,7 @@ impl Check for Steps {
         "7 solvers x {3 generic non-linear non-autonomous right-hand sides (dimension 1,2,3), 2 catalogue systems} x tolerance x maximum step x interval length (one shorter than a start-up, one long), static and dynamic dimension; every consecutive pair of every path is one judged transition of the reference stepper (nondeterministic for Adams: hypothesis set over the hidden derivative history); signature = run-length-compressed class sequence (R embedded RK, S RK4 start-up, A Adams, B BDF, a ambiguous, E Euler)".into()
     }
     fn axes(&self, t: Tier) -> Value {
-        json!({"rhs": RHS, "tol": t.pick(vec![1e-3, 1e-6], vec![1e-3, 1e-5, 1e-7, 1e-9]), "dtmax": [0.2, 0.05], "len": t.pick(vec![0.33, 2.7], vec![0.33, 2.7, 9.1]), "t0": 0.2, "dtmin": 1e-9})
+        json!({"rhs": RHS, "tol": t.pick(vec![1e-3, 1e-6], vec![1e-3, 1e-5, 1e-7, 1e-9]), "dtmax": [0.2, 0.05], "len": t.pick(vec![0.33, 2.7], vec![0.33, 2.7, 9.1]), "t0": t.pick(vec![0.2], vec![0.2, -3.1, 40.0]), "dtmin": 1e-9})
     }
     fn points(&self, t: Tier) -> Vec<StepPt> {
         let mut v = vec![];
@@ -116,7 +120,12 @@ impl Check for Steps {
                                 if dynamic && !(rhs == "generic2" && tol == 1e-3) {
                                     continue;
                                 }
-                                v.push(StepPt { solver, rhs: rhs.to_string(), tol, dtmax, len, dynamic });
+                                for t0 in t.pick(vec![None], vec![None, Some(-3.1), Some(40.0)]) {
+                                    if t0.is_some() && (dynamic || !rhs.starts_with("generic")) {
+                                        continue;
+                                    }
+                                    v.push(StepPt { solver, rhs: rhs.to_string(), tol, dtmax, len, dynamic, t0 });
+                                }
                             }
                         }
                     }
